@@ -677,6 +677,21 @@ class CallsMixin:
                 return V(PY, py=IterModel(m.n, lambda i, s: self.tuple_get(m.item(i, s), 0, s)))
             if name == 'values':
                 return V(PY, py=IterModel(m.n, lambda i, s: self.tuple_get(m.item(i, s), 1, s)))
+            if name == 'pop' and len(vals) == 1 and not self.in_spec:
+                # d.pop(key): the key has to be present (KeyError otherwise); its item leaves the sequence
+                kt, vt = obj.ty.args
+                kterm = self.as_term(self.coerce(vals[0], kt, st), st)
+                term = self.load(obj, st)
+                ln, arr = T.seq_len(lt, term), T.seq_arr(lt, term)
+                j = z3.Int(fresh_name('j'))
+                present = z3.Exists([j], z3.And(0 <= j, j < ln, T.tup_get(lt.args[0], T.Sel(arr, j), 0) == kterm))
+                self.total(st, present, f'key present: {self.src(node)}', node)
+                r = z3.Int(fresh_name('oi'))
+                st.assume(z3.And(0 <= r, r < ln, T.tup_get(lt.args[0], T.Sel(arr, r), 0) == kterm))
+                i = z3.Int(fresh_name('i'))
+                val = self.unbox(vt, T.tup_get(lt.args[0], T.Sel(arr, r), 1), st)
+                self.store(obj, T.seq_mk(lt, ln - 1, z3.Lambda([i], z3.If(i < r, T.Sel(arr, i), T.Sel(arr, i + 1)))), st)
+                return val
         if k == 'Dict':
             kt, vt = obj.ty.args
             d = self.load(obj, st)
